@@ -1065,6 +1065,31 @@ pub fn c11(ctx: &Ctx) -> Report {
     let children = spawn_workers(tier);
     let a = space_a(ctx);
     let b = collect_workers(ctx, children);
+    // the same decisions in the build against the other TLS backend (second build of the crate)
+    let rustls_bin = "/verif/target/vh-rustls/release/vh-rustls";
+    let mut rustls_cells = 0u64;
+    match std::process::Command::new(rustls_bin).arg("--proxy-env").stderr(std::process::Stdio::null()).output() {
+        Ok(o) => {
+            let mut done = false;
+            for line in String::from_utf8_lossy(&o.stdout).lines() {
+                if let Ok(v) = serde_json::from_str::<Value>(line) {
+                    match v["t"].as_str() {
+                        Some("v") => ctx.violation(v["sig"].as_str().unwrap().to_string(), v["what"].as_str().unwrap().to_string(), v["case"].clone(), 0),
+                        Some("done") => {
+                            done = true;
+                            rustls_cells = v["n"].as_u64().unwrap_or(0);
+                        }
+                        _ => {}
+                    }
+                }
+            }
+            if !done {
+                machinery("vh-rustls --proxy-env did not finish".to_string());
+            }
+        }
+        Err(e) => machinery(format!("cannot run {rustls_bin}: {e}")),
+    }
+    ctx.count("rustls_build_env_cells", rustls_cells);
 
     let mut rep = Report::new("exploration");
     rep.set("evaluations", a.decisions + a.sends + b.probes);
@@ -1107,6 +1132,21 @@ pub fn c11(ctx: &Ctx) -> Report {
 
 pub fn replay(v: &Value) -> i32 {
     let case = &v["case"];
+    if case["case"]["rustls_env"].as_bool() == Some(true) || case["rustls_env"].as_bool() == Some(true) {
+        // the rustls-build cells are re-run as a whole by the second binary
+        return match std::process::Command::new("/verif/target/vh-rustls/release/vh-rustls").arg("--proxy-env").output() {
+            Ok(o) => {
+                let out = String::from_utf8_lossy(&o.stdout).to_string();
+                print!("{out}");
+                if out.contains("\"t\":\"v\"") {
+                    1
+                } else {
+                    0
+                }
+            }
+            Err(_) => 2,
+        };
+    }
     match case["space"].as_str() {
         Some("decide") => {
             let c = match DCase::from_json(case) {
